@@ -40,6 +40,7 @@ RULE = (
 )
 ASSUMPTIONS = [
     "bytecode writing is off (cached bytecode is C18's subject); forest modules are purged from sys.modules between cases only",
+    "real pytest sessions (2 per shard quick, 8 thorough) run in subprocesses with PYTEST_DISABLE_PLUGIN_AUTOLOAD=1 and -p jaxtyping._pytest_plugin",
     "the IPython magic is driven in fresh IPython subprocesses (3 histories on two shards in the quick tier, 6 per shard in the thorough tier)",
 ]
 
@@ -261,6 +262,11 @@ def check_history(ctx, ops):
                 except Exception as e:  # noqa: BLE001
                     raise Violation("operation-raised", {"ops": ops}, f"op #{i} (call a function of foo.barbaz that imports 'fo' lazily) raised {type(e).__name__}: {e}; hooks={model.hooks}; history={ops[:i + 1]}")
                 model.do_import("fo")
+            elif kind == "disable":
+                # the run-time switch says whether calls are CHECKED; what gets instrumented on import does not depend on it
+                jaxtyping.config.update("jaxtyping_disable", bool(op[1]))
+                if op[1]:
+                    model.flags.add("import-while-checking-disabled")
             elif kind == "pytest":
                 from jaxtyping import _pytest_plugin
 
@@ -286,7 +292,12 @@ def check_history(ctx, ops):
                 model.hooks.append({"names": list(names), "checker": checker, "active": True, "permanent": True})
             else:
                 raise AssertionError(op)
-            got = observe()
+            was_disabled = bool(jaxtyping.config.jaxtyping_disable)
+            jaxtyping.config.update("jaxtyping_disable", False)  # observations are made with checking on
+            try:
+                got = observe()
+            finally:
+                jaxtyping.config.update("jaxtyping_disable", was_disabled)
             exp = {m: model.loaded[m] for m in MODULES if m in model.loaded}
             if set(got) != set(exp):
                 raise Violation("loaded-set", {"ops": ops}, f"after op #{i} {op}: loaded forest modules {sorted(got)} vs model {sorted(exp)}")
@@ -296,6 +307,7 @@ def check_history(ctx, ops):
                                     f"after op #{i} {op}: module {m} is {'plain' if got[m] is None else 'instrumented/' + str(got[m])}, model says "
                                     f"{'plain' if exp[m] is None else 'instrumented/' + str(exp[m])}; hooks={model.hooks}; history={ops[:i + 1]}")
     finally:
+        jaxtyping.config.update("jaxtyping_disable", False)
         purge()
     nontrivial = bool(model.flags)
     ctx.note(ops, nontrivial, classes=sorted(model.flags) + [f"nhooks-{min(len(model.hooks), 3)}"], sample={"ops": ops})
@@ -309,6 +321,7 @@ op_st = st.one_of(
     st.tuples(st.just("uninstall"), st.integers(0, 5)),
     st.tuples(st.just("install-same"), st.integers(0, 3), st.sampled_from(["a", "b", "none"]), st.sampled_from(["list", "with", "handle"])),
     st.tuples(st.just("lazy")),
+    st.tuples(st.just("disable"), st.sampled_from([True, False, True])),
     st.tuples(st.just("pytest"), names_st, st.sampled_from(["a", "b"]), st.booleans()),
 )
 
@@ -340,6 +353,15 @@ def run(ctx):
     if ctx.shard < 2 or ctx.tier == "thorough":
         ctx.hyp(ipython, max_examples=ctx.n(3, 6), shrink=False)
 
+    # the pytest option in real pytest sessions (vf/checks/c11_pytest.py): the hook lasts for the whole session
+    from vf.checks.c11_pytest import check_pytest_real, pytest_scenario
+
+    @given(pytest_scenario(MODULES, [n for n in HOOK_NAMES if n in MODULES or n in ("foo.ba", "foob")]))
+    def pytest_real(case):
+        check_pytest_real(ctx, case, setup_forest())
+
+    ctx.hyp(pytest_real, max_examples=ctx.n(2, 8), shrink=False)
+
 
 def replay(case, clause, ctx):
     try:
@@ -347,6 +369,11 @@ def replay(case, clause, ctx):
             from vf.checks.c11_ipython import check_ipython_history
 
             check_ipython_history(ctx, case["ipython"])
+            return None
+        if "pytest_real" in case:
+            from vf.checks.c11_pytest import check_pytest_real
+
+            check_pytest_real(ctx, case, setup_forest())
             return None
         check_history(ctx, [list(o) for o in case["ops"]])
     except Violation as v:
